@@ -400,12 +400,14 @@ bad_objno:
       return ReportBadLine(buf);
       }
     x = strtod(s = buf+6, &se);
-    if (se <= s)
+    if (se <= s || !(x >= INT_MIN && x <= INT_MAX))
       goto bad_objno;
     objno = (int)x;
     x = strtod(s = se, &se);
     if (se <= s)
       goto f_done;
+    if (!(x >= INT_MIN && x <= INT_MAX))
+      goto bad_objno;
     Objno[1] = (Long)x;
 
     /* Submit objno and solve_code to Handler. */
